@@ -664,6 +664,7 @@ def _operator_to_blockseries(rep: Report, repo: Repo, R: str):
     cp_alts = (cp, f"ComplementProjector(vecs=np.hstack({RS}), left_vecs=np.hstack({LS}))", f"ComplementProjector(np.hstack({RS}), left_vecs=np.hstack({LS}))")
 
     def fam_implicit(e, first):
+        e = canon(e)
         if not (isinstance(e, (ast.Tuple, ast.List)) and len(e.elts) == 2 and isinstance(e.elts[0], ast.Starred)):
             return False
         return first(e.elts[0].value) and norm(e.elts[1]) in cp_alts
